@@ -5,7 +5,7 @@ ID = 'C12'
 TRANSLATOR = []
 COQ_EXEC = ['exec.X_fill']
 COQ_IMPORTS = 'From PB Require Import model.M_fill.\n'
-COQ_PRELUDE = ''
+COQ_PRELUDE = 'Definition run_fill_seq (l : list (nat * option nat * list meth * lframe * list form)) : J := JL (map run_fill l).\n'
 PER_FILE = 500
 CASE_TIMEOUT = 10
 RULE = ('case = one rectangular float table (0-10 rows, 1-3 columns, distinct integer values, NaN pattern), an index kind '
@@ -16,7 +16,7 @@ RULE = ('case = one rectangular float table (0-10 rows, 1-3 columns, distinct in
         'and nona(value, edge) are sampled (pairs exhaustive to length 6 in the thorough tier). Oracle, from the property text: '
         'plain loops recompute which NaNs lie within `limit` of an observation, which rows are all-NaN / leading, the tail rule of '
         'ffill_na/ffill_0; lists must equal applying the real single methods one after another; ndarray result == pandas result '
-        'values; argument unchanged; non-NaN cells unchanged. non-trivial = data with both NaN and non-NaN cells; distinct by full case. Kinds that must not matter are varied in the random streams: finite values (integers, half-integers, 0, negatives, 2^40; carried as 2v), constants as int / float / np.float64, index = RangeIndex / dates 1698-2248 / intraday sub-second stamps / text labels, Series name, column labels (text, ints, duplicates, tuples), index name, positional vs keyword call, list / tuple / scalar method, dict / list of series, int64 and float32 data, 101-257 rows with limits up to 1000')
+        'values; argument unchanged; non-NaN cells unchanged. non-trivial = data with both NaN and non-NaN cells; distinct by full case. Every argument is an object owned by the caller: the method object of a case is built once, shared by all its calls (forms in a rotated order) and re-read after each call; stream S (500) applies ONE method list / tuple object to 2-4 different inputs in a row (half of them starting with nona / fnna), each result judged on its own. Kinds that must not matter are varied in the random streams: finite values (integers, half-integers, 0, negatives, 2^40; carried as 2v), constants as int / float / np.float64, index = RangeIndex / dates 1698-2248 / intraday sub-second stamps / text labels, Series name, column labels (text, ints, duplicates, tuples), index name, positional vs keyword call, list / tuple / scalar method, dict / list of series, int64 and float32 data, 101-257 rows with limits up to 1000')
 EXPLANATION = ('theorems C12_* (coq/props/C12.v) hold for vectors and frames of every length and NaN pattern, every method list and '
                'every limit: fill exactly within limit, constants, fold over method lists, nona / fnna / ffill_na / ffill_0, nona edge, '
                'columns of a frame behave as vectors, rows/labels/non-NaN cells preserved. pandas\' own ffill/bfill/fillna are modelled; '
@@ -36,7 +36,7 @@ DAY0 = 737425   # 2020-01-01
 
 # ------------------------------------------------------------------ Coq side
 def coq_runner(case):
-    return 'run_nona' if case['kind'] == 'nona' else 'run_fill'
+    return 'run_nona' if case['kind'] == 'nona' else 'run_fill_seq' if case['kind'] == 'seq' else 'run_fill'
 
 def enc(c):
     """finite values are carried as twice their value, so that half-integers stay integers in the model"""
@@ -52,11 +52,15 @@ def _cell(c):
 def _lf(case):
     return '[' + '; '.join('((%d), [%s])' % (l, '; '.join(_cell(c) for c in r)) for l, r in zip(case['labels'], case['rows'])) + ']'
 def forms_of(case):
-    return ['S', 'D', 'A1', 'A2'] if case['k'] == 1 else ['D', 'A2']
+    f = ['S', 'D', 'A1', 'A2'] if case['k'] == 1 else ['D', 'A2']
+    r = case.get('rot', 0) % len(f)            # order in which the forms are called (the method object is shared by the calls of a case)
+    return f[r:] + f[:r]
 _METH = {'ffill': 'MFfill', 'bfill': 'MBfill', 'backfill': 'MBfill', 'nona': 'MNona', 'fnna': 'MFnna', 'ffill_na': 'MFfillNa', 'ffill_0': 'MFfill0'}
 def _meth(m):
     return '(MConst (Fin (%d)))' % enc(m[1]) if isinstance(m, list) else _METH[m]
 def coq_case(case):
+    if case['kind'] == 'seq':
+        return '[' + '; '.join(coq_case(c) for c in seq_items(case)) + ']'
     forms = '[' + '; '.join('F' + f for f in forms_of(case)) + ']'
     if case['kind'] == 'nona':
         e = {None: 'EAll', 1: 'ELatest', -1: 'EHistoric'}[case['edge']]
@@ -250,9 +254,27 @@ def non_nan_kept(lab_in, rows_in, lab_out, rows_out):
                 return 'non-NaN cell %r of row %r became %r' % (a, l, b)
     return None
 
-def impl(case):
+def seq_items(case):
+    """a 'seq' case = ONE method list object (and limit) applied to several inputs in a row"""
+    keys = {k: v for k, v in case.items() if k in ('methods', 'limit', 'mlist', 'cform', 'positional')}
+    return [dict(it, kind='fill', **keys) for it in case['items']]
+
+def impl(case, shared=None):
     global IDX, CFORM, POSITIONAL
+    if case['kind'] == 'seq':
+        CFORM = case.get('cform', 'int')
+        mobj = [py_methods(case)]              # the caller's own object, reused by every call of the sequence
+        obs = []; viol = None; status = 'ok'
+        for q, it in enumerate(seq_items(case)):
+            r = impl(it, shared=mobj)
+            obs.append(r['obs'])
+            if r['status'] != 'ok': status = r['status']
+            if r['viol'] and viol is None:
+                viol = 'call group %d of a sequence that reuses one method object %r: %s' % (q + 1, py_methods(case), r['viol'])
+        return {'status': status, 'obs': obs, 'viol': viol}
     IDX = case['idx']; CFORM = case.get('cform', 'int'); POSITIONAL = bool(case.get('positional'))
+    if shared is None and case['kind'] == 'fill':
+        shared = [py_methods(case)]            # one method object for all the calls (forms) of the case
     forms = forms_of(case)
     k = case['k']
     obs = []; viol = None; status = 'ok'
@@ -271,7 +293,12 @@ def impl(case):
                 if case['value'] is not None: kw['value'] = case['value']
                 r = nona(x, **kw)
             else:
-                r = call_fill(x, py_methods(case), case['limit'])
+                snap = repr(shared[0])
+                try:
+                    r = call_fill(x, shared[0], case['limit'])
+                finally:
+                    if repr(shared[0]) != snap:      # every argument is the caller's: a mutated method list breaks the caller's next call
+                        fail('df_fillna(%s) modified its method argument: %s -> %r' % (form, snap, shared[0]))
         except Exception as e:
             status = type(e).__name__
             obs.append(['ERR', status])
@@ -373,10 +400,14 @@ def impl(case):
     return {'status': status, 'obs': obs, 'viol': viol}
 
 def nontrivial(case, result):
+    if case.get('kind') == 'seq':
+        return any(nontrivial(it, None) for it in case['items'])
     cells = [c for r in case['rows'] for c in r]
     return any(c is None for c in cells) and any(c is not None for c in cells)
 
 def shape(case):
+    if case['kind'] == 'seq':
+        return 'seq%d:%s' % (len(case['items']), 'nona-first' if case['methods'] and case['methods'][0] == 'nona' else 'other')
     if case['kind'] == 'nona':
         return 'nona:edge=%s:%s' % (case['edge'], 'nan' if case['value'] is None else 'value')
     ms = case['methods']
@@ -414,6 +445,7 @@ def decorate(rng, c):
         if r() < 0.3: c['positional'] = True
         if r() < 0.15 and c['methods']: c['mlist'] = 'tuple'
     if r() < 0.15: c['loop'] = True
+    if c['kind'] == 'fill': c['rot'] = rng.randrange(4)
     return c
 
 def vec_rows(mask):
@@ -516,6 +548,19 @@ def gen_cases(rng, tier):
             cases.append(mk(rows, k, rng.choice(IDXS), rng, kind='fill', methods=[rand_method(rng) for _ in range(rng.choice([1, 1, 2]))], limit=rng.choice(RLIMITS), dtype=dt_))
         else:
             cases.append(mk(rows, k, rng.choice(IDXS), rng, kind='nona', value=rng.choice([None, None, 3]), edge=rng.choice([None, 1, -1]), dtype=dt_))
+    # S. one method LIST object applied to 2-4 inputs in a row (arrays, Series, frames; the forms of each input in a rotated order):
+    #    every result is judged on its own, and the list is re-read after every call
+    for _ in range(500 if quick else 6000):
+        ms = [rand_method(rng) for _ in range(rng.choice([1, 2, 2, 3]))]
+        if rng.random() < 0.5: ms[0] = rng.choice(['nona', 'nona', 'fnna'])
+        items = []
+        for _ in range(rng.choice([2, 2, 3, 4])):
+            k = rng.choice([1, 1, 2]); n = rng.randrange(0, 8)
+            it = mk(rand_rows(rng, n, k), k, rng.choice(IDXS), rng)
+            it['rot'] = rng.randrange(4)
+            items.append(it)
+        cases.append(dict(kind='seq', items=items, methods=ms, limit=rng.choice(RLIMITS), mlist=rng.choice([True, True, 'tuple']) if len(ms) == 1 else rng.choice([False, False, 'tuple']),
+                          cform=rng.choice(['int', 'float']), k=items[0]['k'], rows=[], labels=[], idx='range'))
     # D. nona(value, edge)
     for n in range(0, 6):
         for mask in itertools.product([False, True], repeat=n):
@@ -548,6 +593,19 @@ def gen_cases(rng, tier):
     return cases
 
 def shrink(case):
+    if case['kind'] == 'seq':
+        its = case['items']
+        if len(its) > 2:
+            for i in range(len(its)):
+                yield dict(case, items=its[:i] + its[i + 1:])
+        for i, it in enumerate(its):
+            for sm in shrink(dict(it, kind='nona', edge=None, value=None)):
+                if 'rows' in sm and len(sm['rows']) < len(it['rows']):
+                    yield dict(case, items=its[:i] + [{k: v for k, v in sm.items() if k in it}] + its[i + 1:])
+        if len(case['methods']) > 2:
+            for i in range(1, len(case['methods'])):
+                yield dict(case, methods=case['methods'][:i] + case['methods'][i + 1:])
+        return
     n = len(case['rows'])
     for i in range(n):
         rows = case['rows'][:i] + case['rows'][i + 1:]
